@@ -193,11 +193,15 @@ CHECKS = {
         text='Interleaving semantics of a lock-protected port at shared-access granularity (lock acquire/release, deque test/pop/append) for ANY '
              'number of threads running ANY programs of send/poll under ANY schedule; theorems by invariant + induction over the schedule: '
              'no IndexError fault, mutual exclusion, received ++ queued = sent at every moment (at-most-once, FIFO, nothing lost, '
-             'exactly-once at quiescence), received is a prefix of sent. Correspondence: real port classes on real threads under a '
+             'exactly-once at quiescence), received is a prefix of sent. SECOND MODEL, the locking discipline as an event machine over any number of '
+             're-entrant locks and guarded queues (IOPort sharing its input lock, MultiPort with nested child locks, ParserQueue, the byte wire): '
+             'for EVERY event trace of any number of threads no popleft hits an empty deque, every queue satisfies popped ++ held = appended, an '
+             'access without the guarding lock or a pop without a successful test in the same critical section is flagged. Correspondence: real port classes on real threads under a '
              'deterministic scheduler that switches only at those shared accesses; all schedules with <= 2 (3) preemptions of 17 small programs '
-             'on EchoPort, a byte-wise device double, IOPort and MultiPort + random schedules; EchoPort executions replayed step for step through the model.',
-        note='Theorems cover the locked EchoPort-like port (send / non-blocking receive); the device wire, IOPort, MultiPort and blocking receive rest on the '
-             'schedule enumeration with the oracle. Atomicity of single deque/RLock operations under the GIL is assumed; pre-emption inside a statement between shared accesses is not explored.',
+             'on EchoPort, a byte-wise device double, IOPort, MultiPort and ParserQueue + random schedules; EchoPort executions replayed step for step through the '
+             'interleaving model and the event trace of EVERY execution of EVERY port kind replayed through the discipline machine (must be accepted and end in the observed queues).',
+        note='That the real code obeys the discipline (viol=0) is observed on every explored execution, not proved; end-to-end delivery through MultiPort (child queue -> its own queue), '
+             'wire contiguity, the copy-on-send clause and blocking receive rest on the schedule enumeration with the oracle. Atomicity of single deque/RLock operations under the GIL is assumed; pre-emption inside a statement between shared accesses is not explored.',
         technique='Lean 4 proof (inductive invariant of an interleaving step relation over all schedules) + stateless bounded-preemption schedule enumeration on real threads with model replay',
         design='5 C10'),
 }
